@@ -117,7 +117,7 @@ class Result:
         self.operand_only_calls = 0  # calls of subroutines that executed no operator (they only push operands)
         self.max_stack_op = None    # operator that consumed the deepest stack
         self.max_stack_in_subr = False
-        self.features = set()       # vsindex | blend-in-hint-args | short-subr (see Machine._exec)
+        self.features = set()       # vsindex | blend-in-hint-args | short-subr | endchar-in-subr (see Machine._exec)
 
     def key(self):
         return (self.path, self.width)
@@ -397,8 +397,10 @@ class Machine:
             else:
                 frame_ops += 1
                 last_was_op = True
-                if op == "endchar" and depth and frame_ops == 1:
-                    r.features.add("short-subr")
+                if op == "endchar" and depth:
+                    r.features.add("endchar-in-subr")
+                    if frame_ops == 1:
+                        r.features.add("short-subr")
             if trace is not None:
                 trace.append(op)
             r.ops[op] += 1
